@@ -464,15 +464,33 @@ theorem gam_fix_of_leaf (hD : D.length = n) (hS : ∀ f ∈ D, Supp n f) {A : PA
     rw [pget_eq_some, Gam_get D A i _ hf, hconst]
   · rw [List.getElem?_eq_none (by rw [Gam_length, hD]; exact hi), List.getElem?_eq_none (by rw [hA]; exact hi)]
 
-theorem leaf_iff (hD : D.length = n) (hS : ∀ f ∈ D, Supp n f) {A : PA} (hA : A.length = n)
+/-- the least fixpoint of any list of conditions exists -/
+theorem lfp_exists (D' : List BoolFn) : ∃ w, IsLfp D' w :=
+  ⟨_, grounded_sem D' (D'.length + 1) (Nat.lt_succ_self _)⟩
+
+/-- at a leaf (total interpretation, no contradicted value) the leaf test decides membership in the
+target set. In two-valued mode this needs the conditions to depend on the statements only (a
+condition that still depends on a foreign variable under a total interpretation is not noticed by
+the consistency test); in stable mode the stability test re-derives every value, so nothing is needed -/
+theorem leaf_iff (hD : D.length = n) (hS : stable = false → ∀ f ∈ D, Supp n f) {A : PA} (hA : A.length = n)
     (htv : twoV A = true) (hac : acInc D A = false) {σ : Asg} (hm : Matches A σ) :
     Target D n stable σ ↔ isTgt D stable A = true := by
   have hv := vOf_of_matches hA htv hm
-  have hfix := gam_fix_of_leaf hD hS hA htv hac
   rw [isTgt_true_iff]
   unfold Target
   rw [hv]
-  exact ⟨fun h => h.2, fun h => ⟨hfix, h⟩⟩
+  cases hst : stable with
+  | false =>
+    have hfix := gam_fix_of_leaf hD (hS hst) hA htv hac
+    exact ⟨fun h => h.2, fun h => ⟨hfix, h⟩⟩
+  | true =>
+    refine ⟨fun h => h.2, fun h => ⟨?_, h⟩⟩
+    obtain ⟨w0, hw0⟩ := lfp_exists (redu D A)
+    have e := h rfl w0 hw0
+    rw [← Gam_redu_total]
+    have := hw0.1
+    rw [e] at this
+    exact this
 
 /-! ### the laws -/
 
@@ -525,12 +543,12 @@ theorem law_dec_upd {st : List (List PA)} {X : List BoolFn} {R : PA}
 theorem law_okg {X : List BoolFn} (h : OkV D n stable X) : (cv X).length = n := by
   rw [cv_length]; exact h.1
 
-theorem law_leaf_pos (hD : D.length = n) (hS : ∀ f ∈ D, Supp n f) {X : List BoolFn} (h : OkV D n stable X)
+theorem law_leaf_pos (hD : D.length = n) (hS : stable = false → ∀ f ∈ D, Supp n f) {X : List BoolFn} (h : OkV D n stable X)
     (htv : twoV (cv X) = true) (hac : acInc D (cv X) = false) (hit : isTgt D stable (cv X) = true)
     (σ : Asg) (hm : Matches (cv X) σ) : Target D n stable σ :=
   (leaf_iff hD hS (law_okg h) htv hac hm).mpr hit
 
-theorem law_leaf_neg (hD : D.length = n) (hS : ∀ f ∈ D, Supp n f) {X : List BoolFn} (h : OkV D n stable X)
+theorem law_leaf_neg (hD : D.length = n) (hS : stable = false → ∀ f ∈ D, Supp n f) {X : List BoolFn} (h : OkV D n stable X)
     (htv : twoV (cv X) = true) (hac : acInc D (cv X) = false) (hit : isTgt D stable (cv X) = false)
     (σ : Asg) (hm : Matches (cv X) σ) : ¬ Target D n stable σ := by
   intro hT
@@ -562,7 +580,7 @@ theorem law_heu_total {raw : Nat → Option (Nat × Bool)} {k : Nat} {X : List B
 theorem law_mu_le {A : PA} (hA : A.length = n) : size A ≤ n := by
   have := size_le_length A; omega
 
-theorem sem_sound (hD : D.length = n) (hS : ∀ f ∈ D, Supp n f) (raw : Nat → Option (Nat × Bool)) :
+theorem sem_sound (hD : D.length = n) (hS : stable = false → ∀ f ∈ D, Supp n f) (raw : Nat → Option (Nat × Bool)) :
     GSound (Target D n stable) (semP D n stable raw) where
   ok_gam := fun _ h => okV_round h
   ok_set := fun _ _ _ _ h hh => okV_setF h (heuO_valid hh).1 (heuO_valid hh).2
@@ -612,7 +630,7 @@ theorem replicate_not_stored (n : Nat) (x : PA) : ¬ Stored (List.replicate (n +
   NgStore.new_not_stored n x
 
 /-- safety of the semantic machine: whenever it halts it has emitted exactly the target models -/
-theorem sem_exact (hD : D.length = n) (hS : ∀ f ∈ D, Supp n f) (raw : Nat → Option (Nat × Bool))
+theorem sem_exact (hD : D.length = n) (hS : stable = false → ∀ f ∈ D, Supp n f) (raw : Nat → Option (Nat × Bool))
     (V0 : List BoolFn) (hok : OkV D n stable V0) (hg : ∀ σ, Target D n stable σ → Matches (cv V0) σ)
     (fuel : Nat) (s' : St (List BoolFn) (List (List PA)))
     (hr : run (semP D n stable raw) 0 fuel (initSt V0 n) = some s') :
